@@ -16,7 +16,7 @@ mkdir -p "$ROOT/.build"
 RACE=""
 [ "$ID" = "c20" ] && RACE=1
 if [ -n "${VERIF_REPO:-}" ]; then
-  ALT="$ROOT/.build/alt/$ID"
+  ALT="$ROOT/.build/alt/$ID${VERIF_ALT_TAG:-}"
   mkdir -p "$ALT/evidence"
   sed "s#=> /repo#=> $VERIF_REPO#" "$ROOT/harness/go.mod" > "$ALT/go.mod"
   cp "$ROOT/harness/go.sum" "$ALT/go.sum"
